@@ -342,6 +342,26 @@ fn eval_cli(ctx: &Ctx, case: &CliCase) -> Verdict {
         );
     }
 
+    // the same for the list of axes to keep: an axis named twice or one that does not exist is an
+    // error there too (the statement's last sentence does not depend on the spelling)
+    {
+        let keep: Vec<usize> = (0..d).filter(|a| !case.remove.contains(a)).collect();
+        let mut dup_keep = keep.clone();
+        dup_keep.insert(0, keep[keep.len() - 1]);
+        let mut oob_keep = keep.clone();
+        oob_keep.push(d + (case.keep_order_seed as usize % 3));
+        let huge_keep: Vec<String> = keep.iter().map(|k| k.to_string()).chain(["18446744073709551615".to_string()]).collect();
+        for (what, list) in [("duplicate axis", join(&dup_keep)), ("out-of-range axis", join(&oob_keep)), ("out-of-range axis", huge_keep.join(","))] {
+            let run = cli::sfs(ctx, &["view", "-M", &list, &file], Input::Null, &dir);
+            ensure!(
+                run.clean_failure() && !run.stdout_str().contains("#SHAPE"),
+                "`view -M {list}` ({what} in the list of axes to keep) on shape {:?} should fail cleanly without output: {}",
+                case.spec.shape,
+                run.describe()
+            );
+        }
+    }
+
     let mut lens = case.spec.shape.clone();
     lens.sort();
     lens.dedup();
@@ -482,7 +502,7 @@ pub fn check(ctx: &Ctx) -> Check {
         }),
         Box::new(RandomPart {
             name: "cli-view",
-            rule: "sfs view -m/-M/--marginalize-remove on text and npy files: printed cells vs naive sum at the printed precision, -M K byte-identical to -m complement(K), duplicate/out-of-range/all axes fail cleanly; non-trivial as above",
+            rule: "sfs view -m/-M/--marginalize-remove on text and npy files: printed cells vs naive sum at the printed precision, -M K byte-identical to -m complement(K), duplicate/out-of-range/all axes fail cleanly, for -m and for -M alike; non-trivial as above",
             cases: ctx.tier.pick(800, 20_000),
             strategy: Box::new(|| cli_strategy().boxed()),
             eval: Box::new(eval_cli),
